@@ -78,14 +78,23 @@ def dlayer(lat):
 
 
 def chi_exact(lat):
-    """Number of original edges crossing any compressed cut, as a bond size."""
-    L = max(lat["Lx"], lat["Ly"], lat.get("Lz", 1))
+    """Number of original edges crossing any compressed cut, as a bond size.
+
+    2D: two neighbouring blocks of merged sites share at most max(L)-1 edges while opposite boundaries stay >= 1 apart
+    (max_separation >= 1), twice that across a periodic direction.  3D: a cut plane is crossed by at most a*b edges
+    (a, b the two largest sides); no 3D mode allocates by max_bond, so the generous bound costs nothing."""
+    c = 2 if any(lat.get(k) for k in ("cx", "cy", "cz")) else 1
     if lat.get("Lz"):
-        # 3D: a boundary plane bond carries up to (L-1) merged layers
-        c = 2 if any(lat.get(k) for k in ("cx", "cy", "cz")) else 1
-        return max(1, dlayer(lat) ** (c * (L - 1)))
-    c = 2 if (lat.get("cx") or lat.get("cy")) else 1
+        a, b = sorted([lat["Lx"], lat["Ly"], lat["Lz"]])[1:]
+        return max(1, dlayer(lat) ** (c * a * b))
+    L = max(lat["Lx"], lat["Ly"])
     return max(1, dlayer(lat) ** (c * (L - 1)))
+
+
+def chi_rows(lat, n):
+    """Exact bond of a boundary made of n merged rows (a one-sided sweep may merge all L rows)."""
+    c = 2 if any(lat.get(k) for k in ("cx", "cy", "cz")) else 1
+    return max(1, dlayer(lat) ** (c * int(n)))
 
 
 def lattice_candidates(tier, max_chi, allow_cyclic=True, allow_layers=True, min_L=2, max_L=None, square_only=False, min_D=1):
@@ -240,6 +249,7 @@ MODES_1D = ["direct", "dm", "zipup", "zipup-first", "zipup-oversample", "sdc", "
             "fit-oversample"]
 MODES_AG = ["local-early", "local-late", "projector", "su", "superorthogonal", "l2bp"]
 MODES_2D = ["mps", "full-bond", "projector2d"]
+CTMRG_MODES = ["projector"]
 SEEDED = {"src", "src-first", "src-oversample", "srcmps", "srcmps-first", "srcmps-oversample", "fit", "fit-zipup",
           "fit-projector", "fit-oversample"}
 # modes that allocate sketches / guesses of size max_bond: keep the exact bond small
@@ -551,7 +561,7 @@ def run_from_side(case):
     lat, mode = case["lat"], case["mode"]
     tn = build2d(lat)
     ref, mag = reference(tn)
-    chi = chi_exact(lat) + int(case["chi_extra"])
+    chi = max(chi_exact(lat), chi_rows(lat, swept_rows(case, lat))) + int(case["chi_extra"])
     with rejecting(NotImplementedError, tag="unsupported:"):
         res = call_from_side(tn, case, chi, 0.0)
     if not isinstance(res, Q().TensorNetwork):
@@ -606,7 +616,7 @@ def run_mps_sweep(case):
 @st.composite
 def s_around(draw, tier):
     entry = draw(st.sampled_from(["boundary", "boundary", "ctmrg"]))
-    modes = ALL_GROUP_MODES if entry == "boundary" else ["projector", "projector", "projector2d", "mps", "local-early", "l2bp"]
+    modes = ALL_GROUP_MODES if entry == "boundary" else CTMRG_MODES
     mode = draw(st.sampled_from(modes))
     heavy = mode in HEAVY
     lat = draw(s_lattice2d(tier, max_chi=(64 if heavy else 256) if tier == "quick" else (256 if heavy else 729), min_L=3,
@@ -726,7 +736,7 @@ def s_cap_boundary(draw, tier):
         o.pop(k, None)
     case = {"lat": lat, "mode": mode, "sequence": draw(s_sequence2d()), "opts": o, "inplace": draw(st.booleans()),
             "chi_frac": draw(st.floats(0.0, 1.0)), "cutoff": draw(st.sampled_from([0.0, 1e-10, 1e-3])),
-            "entry": draw(st.sampled_from(["boundary", "boundary", "boundary", "ctmrg"]))}
+            "entry": "ctmrg" if mode in CTMRG_MODES and draw(st.booleans()) else "boundary"}
     if mode in SEEDED:
         case["seed"] = draw(st.integers(0, 2**31 - 1))
     return case
@@ -737,7 +747,7 @@ def run_cap_boundary(case):
     tn = build2d(lat)
     kw = boundary_kwargs(case)
     if case["entry"] == "ctmrg":
-        for k in ("compress_late", "sweep_reverse", "layer_tags", "max_unfinished"):
+        for k in ("compress_late", "sweep_reverse", "layer_tags", "max_unfinished", "compress_opts"):
             kw.pop(k, None)
     exact = dlayer(lat) ** 2
     chi = binding_chi(case["chi_frac"], exact)
@@ -953,6 +963,467 @@ def run_env_plaq(case):
     return {"nt": lat_nontrivial(lat, 2), "cls": cls, "err": max(errs)}
 
 
+
+# ---------------------------------------------------------------------------
+# coarse graining (HOTRG) and corner-transfer (CTMRG) schemes in 2D
+# ---------------------------------------------------------------------------
+
+def chi_full(lat):
+    """Safe exact bond for schemes that may merge a whole side: every edge crossing a full cut of the lattice."""
+    if lat.get("Lz"):
+        return chi_exact(lat)
+    c = 2 if any(lat.get(k) for k in ("cx", "cy")) else 1
+    return max(1, dlayer(lat) ** (c * max(lat["Lx"], lat["Ly"])))
+
+
+@st.composite
+def s_hotrg2d(draw, tier):
+    lat = draw(s_lattice2d(tier, max_chi=16 if tier == "quick" else 81))
+    # chi_exact <= 16 keeps D_layer**L small; the candidates filter by chi_exact, the scheme needs chi_full
+    o = {}
+    if draw(st.integers(0, 2)) == 0:
+        o["canonize"] = True
+        if draw(st.booleans()):
+            o["gauge_power"] = draw(st.sampled_from([1.0, 0.5]))
+        # canonize=True gauges with gauge_all_simple, whose default smudge=1e-12 regularises the inverse gauges: the
+        # result is exact only up to smudge / (relative size of the smallest bond weight).  Generic gaussian tensors
+        # keep that ratio ~1e-11; the nearly rank-one 'shifted' tensors do not (errors to 1e-4 observed), so the
+        # conditioning is fixed by construction here rather than by loosening the tolerance.
+        lat["kind"] = "gauss"
+    seq = draw(st.sampled_from([None, ["x", "y"], ["y", "x"], ["x"], ["y"]]))
+    if seq is not None:
+        o["sequence"] = seq
+    en = draw(st.sampled_from(["auto", "auto", False, True, 1.0]))
+    if en != "auto":
+        o["equalize_norms"] = en
+    if draw(st.integers(0, 2)) == 0:
+        o["strip_exponent"] = True
+    ms = draw(st.sampled_from([1, 1, 1, 2]))
+    if ms != 1:
+        o["max_separation"] = ms
+    mu = draw(st.sampled_from([1, 1, 0, 2]))
+    if mu != 1:
+        o["max_unfinished"] = mu
+    if draw(st.integers(0, 4)) == 0:
+        o["lazy"] = True
+    return {"lat": lat, "opts": o, "entry": draw(st.sampled_from(["contract", "contract", "contract_", "coarse", "coarse_"])),
+            "direction": draw(st.sampled_from(["x", "y"])), "final_contract": draw(st.sampled_from([True, True, False])),
+            "binding": draw(st.integers(0, 2)) == 0, "chi_frac": draw(st.floats(0.0, 1.0))}
+
+
+def coarse_pairs(res, direction, ndim=2):
+    """Bonds between neighbouring coarse sites *across* the coarse-grained direction, for sites that merged two fine
+    sites: [(size, tagA, tagB)] (these are the bonds the inserted projectors truncate)."""
+    out = []
+    ts = list(res)
+    ax = "xyz".index(direction)
+    for a in range(len(ts)):
+        ca = site_coords(ts[a], ndim)
+        if len(ca) != 1:
+            continue
+        for b in range(a + 1, len(ts)):
+            cb = site_coords(ts[b], ndim)
+            if len(cb) != 1 or not shares_bond(ts[a], ts[b]):
+                continue
+            (pa,), (pb,) = ca, cb
+            if pa[ax] == pb[ax] and sum(abs(x - y) for x, y in zip(pa, pb)) == 1:
+                out.append((bond_size(ts[a], ts[b]), pa, pb))
+    return out
+
+
+def run_hotrg2d(case):
+    lat = case["lat"]
+    qtn = Q()
+    tn = build2d(lat)
+    ref, mag = reference(tn)
+    o = dict(case["opts"])
+    entry = case["entry"]
+    binding = bool(case["binding"]) and dlayer(lat) >= 2 and not o.get("lazy") and entry.startswith("coarse")
+    exact = chi_full(lat)
+    chi = binding_chi(case["chi_frac"], dlayer(lat) ** 2) if binding else exact
+    cutoff = 1e-10 if binding else 0.0
+    if entry.startswith("coarse"):
+        d = case["direction"]
+        for k in ("sequence", "max_separation", "max_unfinished"):
+            o.pop(k, None)
+        fn = tn.coarse_grain_hotrg_ if entry.endswith("_") else tn.coarse_grain_hotrg
+        L0 = {"x": lat["Lx"], "y": lat["Ly"]}[d]
+        res = fn(d, max_bond=chi, cutoff=cutoff, **o)
+        if not isinstance(res, qtn.TensorNetwork2D):
+            raise Violation("coarse-not-2d", got=type(res).__name__)
+        L1 = {"x": res.Lx, "y": res.Ly}[d]
+        if L1 != (L0 + 1) // 2:
+            raise Violation("coarse-size", got=L1, want=(L0 + 1) // 2, direction=d)
+        if not o.get("lazy"):
+            nsite = res.Lx * res.Ly
+            if res.num_tensors != nsite:
+                raise Violation("coarse-tensor-count", got=res.num_tensors, want=nsite)
+        nb = 0
+        if binding:
+            for size, pa, pb in coarse_pairs(res, d):
+                ax = "xy".index(d)
+                # both coarse sites are made of two fine rows unless they are the odd row left over
+                if 2 * pa[ax] + 1 <= L0 - 1:
+                    nb += 1
+                    if size > chi:
+                        raise Violation("bond-cap", size=int(size), cap=int(chi), entry="coarse_grain_hotrg", direction=d,
+                                        cyclic=bool(lat.get("cx") or lat.get("cy")), canonize=bool(o.get("canonize")))
+            e = 0.0
+        else:
+            e = check_value(denote(res), ref, mag, entry="coarse_grain_hotrg", direction=d, canonize=bool(o.get("canonize")),
+                            equalize=repr(o.get("equalize_norms", "auto")), lazy=bool(o.get("lazy")),
+                            cyclic=bool(lat.get("cx") or lat.get("cy")))
+        cls = ["direction=" + d] + (["capbonds=%d" % min(nb, 9)] if binding else [])
+        nt = lat_nontrivial(lat, 1) and (not binding or nb > 0)
+    else:
+        fn = tn.contract_hotrg_ if entry.endswith("_") else tn.contract_hotrg
+        res = fn(max_bond=chi, cutoff=cutoff, final_contract=case["final_contract"], **o)
+        e = check_value(denote(res), ref, mag, entry="contract_hotrg", canonize=bool(o.get("canonize")),
+                        equalize=repr(o.get("equalize_norms", "auto")), strip=bool(o.get("strip_exponent")),
+                        lazy=bool(o.get("lazy")), cyclic=bool(lat.get("cx") or lat.get("cy")), final=bool(case["final_contract"]))
+        cls = ["final" if case["final_contract"] and not o.get("lazy") else "network"]
+        nt = lat_nontrivial(lat, 2)
+    cls = lat_classes(lat) + ["entry=" + entry, "binding" if binding else "exact"] + cls + ["opt:" + k for k in sorted(o)]
+    return {"nt": nt, "cls": cls, "err": e}
+
+
+@st.composite
+def s_ctmrg2d(draw, tier):
+    # contract_ctmrg forwards lazy / canonize_opts / contract_opts / reduce_opts to the boundary routine: only the
+    # 'projector' mode (its default) takes all of them (others raise TypeError, or absorb them in **kwargs until a
+    # truncation hands them to the SVD)
+    mode = draw(st.sampled_from(CTMRG_MODES))
+    lat = draw(s_lattice2d(tier, max_chi=256 if tier == "quick" else 729))
+    o = {}
+    if draw(st.integers(0, 2)) == 0:
+        o["canonize"] = True
+    en = draw(st.sampled_from(["auto", "auto", False, True, 1.0]))
+    if en != "auto":
+        o["equalize_norms"] = en
+    if draw(st.integers(0, 2)) == 0:
+        o["strip_exponent"] = True
+    ms = draw(st.sampled_from([1, 1, 1, 2]))
+    if ms != 1:
+        o["max_separation"] = ms
+    if mode == "projector" and draw(st.integers(0, 4)) == 0:
+        o["lazy"] = True
+    return {"lat": lat, "mode": mode, "opts": o, "sequence": draw(s_sequence2d()),
+            "final_contract": draw(st.sampled_from([True, True, False])), "inplace": draw(st.sampled_from([False, False, True]))}
+
+
+def run_ctmrg2d(case):
+    lat, mode = case["lat"], case["mode"]
+    tn = build2d(lat)
+    ref, mag = reference(tn)
+    o = dict(case["opts"])
+    res = tn.contract_ctmrg(max_bond=chi_exact(lat), cutoff=0.0, mode=mode, sequence=case["sequence"],
+                            final_contract=case["final_contract"], inplace=case["inplace"], **o)
+    e = check_value(denote(res), ref, mag, entry="contract_ctmrg", mode=mode, canonize=bool(o.get("canonize")),
+                    equalize=repr(o.get("equalize_norms", "auto")), strip=bool(o.get("strip_exponent")), lazy=bool(o.get("lazy")),
+                    cyclic=bool(lat.get("cx") or lat.get("cy")), final=bool(case["final_contract"]))
+    dirs = seq_dirs(case["sequence"])
+    nd = 4 if dirs is None else len(dirs)
+    cls = lat_classes(lat) + ["mode=" + mode, "ndirs=%d" % nd, "final" if case["final_contract"] and not o.get("lazy") else "network"]
+    cls += ["opt:" + k for k in sorted(o)]
+    return {"nt": lat_nontrivial(lat, nd), "cls": cls, "err": e}
+
+
+
+# ---------------------------------------------------------------------------
+# 3D lattices
+# ---------------------------------------------------------------------------
+
+DIRS3 = ["xmin", "xmax", "ymin", "ymax", "zmin", "zmax"]
+MODES_3D = ["peps", "projector3d", "l2bp3d"]
+MODES_3D_AG = ["local-early", "local-late", "projector", "su", "l2bp"]
+B3D_GROUPS = {"peps": ["peps"], "projector3d": ["projector3d"], "l2bp3d": ["l2bp3d"],
+              "ag": MODES_3D_AG}
+
+
+@st.composite
+def s_lattice3d(draw, tier, min_D=1, allow_cyclic=True):
+    shapes = [(2, 2, 2), (2, 2, 2), (2, 2, 3), (2, 3, 2), (3, 2, 2)]
+    if tier != "quick":
+        shapes += [(2, 3, 3), (3, 2, 3), (3, 3, 2), (2, 2, 4)]
+    Lx, Ly, Lz = draw(st.sampled_from(shapes))
+    D = draw(st.sampled_from([d for d in (1, 2, 2, 2, 2, 3) if d >= min_D]))
+    if D == 3 and Lx * Ly * Lz > 8:
+        D = 2
+    lat = {"Lx": Lx, "Ly": Ly, "Lz": Lz, "D": D, "cx": False, "cy": False, "cz": False, "layers": 1}
+    if allow_cyclic and D <= 2 and draw(st.integers(0, 3)) == 0:
+        # periodic only along a direction of length >= 3 (length 2 would repeat a label on one tensor)
+        for d, L in zip("xyz", (Lx, Ly, Lz)):
+            if L >= 3:
+                lat["c" + d] = True
+    lat["seed"] = draw(A.seeds)
+    lat["kind"] = draw(st.sampled_from(KINDS))
+    lat["dtype"] = draw(st.sampled_from(A.DTYPES64))
+    lat["exponent"] = draw(st.sampled_from([0.0, 0.0, 0.0, 1.5, -2.0]))
+    return lat
+
+
+def build3d(lat):
+    qtn = Q()
+    tn = qtn.TN3D_from_fill_fn(fill_fn(lat["seed"], lat["kind"], lat["dtype"]), int(lat["Lx"]), int(lat["Ly"]), int(lat["Lz"]),
+                               int(lat["D"]), cyclic=(bool(lat.get("cx")), bool(lat.get("cy")), bool(lat.get("cz"))))
+    if lat.get("exponent"):
+        tn.exponent = float(lat["exponent"])
+    return tn
+
+
+def cyc3(lat):
+    return bool(lat.get("cx") or lat.get("cy") or lat.get("cz"))
+
+
+@st.composite
+def s_sequence3d(draw):
+    k = draw(st.integers(0, 6))
+    if k == 0:
+        return None
+    return list(draw(st.permutations(DIRS3))[:k])
+
+
+@st.composite
+def s_opts3d(draw, mode, full=True):
+    o = {}
+    if draw(st.booleans()):
+        o["canonize"] = draw(st.booleans())
+    if mode == "peps":
+        if draw(st.integers(0, 2)) == 0:
+            o["canonize_interleave"] = False
+        if draw(st.integers(0, 2)) == 0:
+            o["compress_late"] = False
+    if mode in ("projector3d", "l2bp3d") and draw(st.integers(0, 4)) == 0:
+        o["lazy"] = True
+    en = draw(st.sampled_from(["auto", "auto", False, True, 1.0]))
+    if en != "auto":
+        o["equalize_norms"] = en
+    if full:
+        if draw(st.integers(0, 2)) == 0:
+            o["strip_exponent"] = True
+        ms = draw(st.sampled_from([1, 1, 1, 2]))
+        if ms != 1:
+            o["max_separation"] = ms
+        mu = draw(st.sampled_from([1, 1, 0, 2]))
+        if mu != 1:
+            o["max_unfinished"] = mu
+    return o
+
+
+def s_b3d(group):
+    modes = B3D_GROUPS[group]
+
+    @st.composite
+    def strat(draw, tier):
+        mode = draw(st.sampled_from(modes))
+        lat = draw(s_lattice3d(tier, allow_cyclic=(mode != "peps")))
+        o = draw(s_opts3d(mode))
+        if o.get("canonize") and mode in ("projector3d",):
+            lat["kind"] = "gauss"  # gauging with regularised inverses, see s_hotrg2d
+        return {"lat": lat, "mode": mode, "sequence": draw(s_sequence3d()), "opts": o,
+                "final_contract": draw(st.sampled_from([True, True, False])), "inplace": draw(st.sampled_from([False, False, True])),
+                "binding": draw(st.integers(0, 2)) == 0, "chi_frac": draw(st.floats(0.0, 1.0))}
+
+    return lambda tier: strat(tier)
+
+
+def run_b3d(case):
+    lat, mode = case["lat"], case["mode"]
+    qtn = Q()
+    tn = build3d(lat)
+    ref, mag = reference(tn)
+    o = dict(case["opts"])
+    binding = bool(case["binding"]) and lat["D"] >= 2 and not o.get("lazy") and not cyc3(lat)
+    chi = binding_chi(case["chi_frac"], lat["D"] ** 2) if binding else chi_exact(lat)
+    cutoff = 1e-10 if binding else 0.0
+    final = case["final_contract"] and not binding
+    if binding:
+        o.pop("strip_exponent", None)
+    with rejecting(NotImplementedError, tag="unsupported:"):
+        res = tn.contract_boundary(max_bond=chi, cutoff=cutoff, mode=mode, sequence=case["sequence"], final_contract=final,
+                                   inplace=case["inplace"], **o)
+    nd = 6 if case["sequence"] is None else len(case["sequence"])
+    e, nb = 0.0, 0
+    if binding:
+        if not isinstance(res, qtn.TensorNetwork):
+            raise Violation("not-a-network", mode=mode)
+        nb, _ = check_cap(res, chi, ndim=3, entry="boundary3d", mode=mode, early=o.get("compress_late") is False)
+    else:
+        e = check_value(denote(res), ref, mag, entry="boundary3d", mode=mode, cyclic=cyc3(lat), strip=bool(o.get("strip_exponent")),
+                        equalize=repr(o.get("equalize_norms", "auto")), final=bool(final), lazy=bool(o.get("lazy")),
+                        canonize=o.get("canonize", True))
+    cls = lat_classes(lat) + ["mode=" + mode, "ndirs=%d" % nd, "binding" if binding else "exact", "final" if final else "network"]
+    cls += ["opt:" + k for k in sorted(o)] + (["capbonds=%d" % min(nb, 9)] if binding else [])
+    return {"nt": lat["D"] >= 2 and (not binding or nb > 0), "cls": cls, "err": e}
+
+
+@st.composite
+def s_side3d(draw, tier):
+    mode = draw(st.sampled_from(MODES_3D + MODES_3D + MODES_3D_AG))
+    lat = draw(s_lattice3d(tier, allow_cyclic=False))
+    fw = draw(st.sampled_from(DIRS3))
+    o = draw(s_opts3d(mode, full=False))
+    o.pop("lazy", None)
+    if o.get("canonize") and mode == "projector3d":
+        lat["kind"] = "gauss"
+    return {"lat": lat, "mode": mode, "from_which": fw, "opts": o, "spelling": draw(st.sampled_from(["plain", "inplace"])),
+            "entry": draw(st.sampled_from(["from", "from", "plane_envs", "peps_sweep"])),
+            "binding": draw(st.integers(0, 2)) == 0, "chi_frac": draw(st.floats(0.0, 1.0)),
+            "interleave": draw(st.booleans())}
+
+
+def run_side3d(case):
+    lat, mode, fw = case["lat"], case["mode"], case["from_which"]
+    qtn = Q()
+    tn = build3d(lat)
+    ref, mag = reference(tn)
+    e0 = float(np.real(tn.exponent))
+    o = dict(case["opts"])
+    if o.get("equalize_norms") == "auto":
+        o.pop("equalize_norms")
+    L = {"x": lat["Lx"], "y": lat["Ly"], "z": lat["Lz"]}
+    full = {d: (0, L[d] - 1) for d in "xyz"}
+    entry = case["entry"]
+    binding = bool(case["binding"]) and lat["D"] >= 2 and entry == "from"
+    chi = binding_chi(case["chi_frac"], lat["D"] ** L[fw[0]]) if binding else chi_exact(lat)
+    cutoff = 1e-10 if binding else 0.0
+    e, nb = 0.0, 0
+    info = dict(entry="3d:" + entry, mode=mode, from_which=fw, equalize=repr(o.get("equalize_norms", False)))
+    if entry == "from":
+        fn = tn.contract_boundary_from_ if case["spelling"] == "inplace" else tn.contract_boundary_from
+        res = fn(full["x"], full["y"], full["z"], fw, max_bond=chi, cutoff=cutoff, mode=mode, **o)
+        if case["spelling"] == "inplace" and res is None:
+            res = tn  # the in-place spelling is allowed to return nothing... the receiver is the result
+        if not isinstance(res, qtn.TensorNetwork):
+            raise Violation("returned-none" if res is None else "not-a-network", mode=mode, spelling=case["spelling"], entry="3d:from")
+        if binding:
+            nb, _ = check_cap(res, chi, ndim=3, **info)
+            if nb == 0:
+                raise Violation("no-boundary-found", **info)
+        else:
+            e = check_value(denote(res), ref, mag, **info)
+    elif entry == "plane_envs":
+        envs = tn._compute_plane_envs(full["x"], full["y"], full["z"], fw, max_bond=chi, cutoff=0.0, mode=mode, **o)
+        ax = "xyz".index(fw[0])
+        sweep = list(range(L[fw[0]])) if fw.endswith("min") else list(range(L[fw[0]] - 1, -1, -1))
+        if set(envs) != set(sweep[1:]):
+            raise Violation("env-keys", got=sorted(envs), want=sorted(sweep[1:]), **info)
+        for i in sweep[1:]:
+            env = envs[i]
+            rest, absorbed = complement_of(tn, env, 3)
+            if any((c[ax] >= i if fw.endswith("min") else c[ax] <= i) for c in absorbed):
+                raise Violation("env-holds-own-row", key=i, **info)
+            v = env_value(tn, [env] + rest, e0)
+            e = max(e, check_value(v, ref, mag, key=i, **info))
+    else:
+        fn = tn.contract_peps_sweep_ if False else tn.contract_peps_sweep
+        for k in ("compress_late",):
+            o.pop(k, None)
+        if mode != "peps":
+            o.pop("canonize_interleave", None)
+        res = tn.contract_peps_sweep(chi, cutoff=0.0, from_which=draw_or_none(case), mode=mode,
+                                     inplace=case["spelling"] == "inplace", **o)
+        e = check_value(denote(res), ref, mag, **info)
+    cls = lat_classes(lat) + ["mode=" + mode, "entry=" + entry, "from=" + fw, "binding" if binding else "exact", "spell=" + case["spelling"]]
+    cls += ["opt:" + k for k in sorted(o)]
+    return {"nt": lat["D"] >= 2, "cls": cls, "err": e}
+
+
+def draw_or_none(case):
+    # contract_peps_sweep: from_which=None lets the code pick the smallest plane
+    return None if case.get("interleave") and case["from_which"] == "zmax" else case["from_which"]
+
+
+@st.composite
+def s_rg3d(draw, tier):
+    lat = draw(s_lattice3d(tier))
+    entry = draw(st.sampled_from(["hotrg", "hotrg", "coarse", "ctmrg", "ctmrg", "simple_sweep"]))
+    o = {}
+    if entry != "simple_sweep":
+        if draw(st.integers(0, 2)) == 0:
+            o["canonize"] = True
+            lat["kind"] = "gauss"  # regularised gauging, see s_hotrg2d
+        en = draw(st.sampled_from(["auto", "auto", False, True, 1.0]))
+        if en != "auto":
+            o["equalize_norms"] = en
+        if draw(st.integers(0, 2)) == 0:
+            o["strip_exponent"] = True
+        if draw(st.integers(0, 4)) == 0:
+            o["lazy"] = True
+    else:
+        lat["kind"] = "gauss"
+        lat["cx"] = lat["cy"] = lat["cz"] = False
+        if draw(st.booleans()):
+            o["equalize_norms"] = draw(st.sampled_from([True, 1.0]))
+    if entry == "hotrg":
+        seq = draw(st.sampled_from([None, None, "perm", "sub"]))
+        if seq == "perm":
+            o["sequence"] = list(draw(st.permutations(["x", "y", "z"])))
+        elif seq == "sub":
+            o["sequence"] = list(draw(st.permutations(["x", "y", "z"]))[:draw(st.integers(1, 2))])
+    if entry == "ctmrg":
+        sq = draw(s_sequence3d())
+        if sq is not None:
+            o["sequence"] = sq
+    if entry in ("hotrg", "ctmrg"):
+        ms = draw(st.sampled_from([1, 1, 1, 2]))
+        if ms != 1:
+            o["max_separation"] = ms
+    return {"lat": lat, "entry": entry, "opts": o, "direction": draw(st.sampled_from(["x", "y", "z"])),
+            "final_contract": draw(st.sampled_from([True, True, False])), "inplace": draw(st.sampled_from([False, False, True])),
+            "binding": draw(st.integers(0, 2)) == 0, "chi_frac": draw(st.floats(0.0, 1.0))}
+
+
+def run_rg3d(case):
+    lat, entry = case["lat"], case["entry"]
+    qtn = Q()
+    tn = build3d(lat)
+    ref, mag = reference(tn)
+    o = dict(case["opts"])
+    exact = chi_full(lat)
+    info = dict(entry="3d:" + entry, cyclic=cyc3(lat), canonize=bool(o.get("canonize")), equalize=repr(o.get("equalize_norms", "auto")),
+                strip=bool(o.get("strip_exponent")), lazy=bool(o.get("lazy")))
+    e, nb = 0.0, 0
+    binding = False
+    if entry == "hotrg":
+        fn = tn.contract_hotrg_ if case["inplace"] else tn.contract_hotrg
+        res = fn(max_bond=exact, cutoff=0.0, final_contract=case["final_contract"], **o)
+        e = check_value(denote(res), ref, mag, final=bool(case["final_contract"]), **info)
+    elif entry == "ctmrg":
+        res = tn.contract_ctmrg(max_bond=exact, cutoff=0.0, final_contract=case["final_contract"], inplace=case["inplace"], **o)
+        e = check_value(denote(res), ref, mag, final=bool(case["final_contract"]), **info)
+    elif entry == "simple_sweep":
+        # the compressions of this scheme take their cutoff (default 1e-10) only through peps_opts / mps_opts
+        res = tn.contract_simple_sweep(exact, inplace=case["inplace"], peps_opts={"cutoff": 0.0}, mps_opts={"cutoff": 0.0}, **o)
+        e = check_value(denote(res), ref, mag, **info)
+    else:
+        d = case["direction"]
+        o.pop("strip_exponent", None) if False else None
+        binding = bool(case["binding"]) and lat["D"] >= 2 and not o.get("lazy")
+        chi = binding_chi(case["chi_frac"], lat["D"] ** 2) if binding else exact
+        fn = tn.coarse_grain_hotrg_ if case["inplace"] else tn.coarse_grain_hotrg
+        L0 = {"x": lat["Lx"], "y": lat["Ly"], "z": lat["Lz"]}[d]
+        res = fn(d, max_bond=chi, cutoff=1e-10 if binding else 0.0, **o)
+        if not isinstance(res, qtn.TensorNetwork3D):
+            raise Violation("coarse-not-3d", got=type(res).__name__)
+        L1 = {"x": res.Lx, "y": res.Ly, "z": res.Lz}[d]
+        if L1 != (L0 + 1) // 2:
+            raise Violation("coarse-size", got=L1, want=(L0 + 1) // 2, direction=d, entry="3d:coarse")
+        if binding:
+            ax = "xyz".index(d)
+            for size, pa, pb in coarse_pairs(res, d, 3):
+                if 2 * pa[ax] + 1 <= L0 - 1:
+                    nb += 1
+                    if size > chi:
+                        raise Violation("bond-cap", size=int(size), cap=int(chi), direction=d, **info)
+        else:
+            e = check_value(denote(res), ref, mag, direction=d, **info)
+    cls = lat_classes(lat) + ["entry=" + entry, "binding" if binding else "exact"] + ["opt:" + k for k in sorted(o)]
+    if entry == "coarse":
+        cls.append("direction=" + case["direction"])
+    return {"nt": lat["D"] >= 2 and (not binding or nb > 0), "cls": cls, "err": e}
+
+
 SUBCHECKS = []
 for _g in B2D_GROUPS:
     SUBCHECKS.append(SubCheck(
@@ -990,4 +1461,30 @@ SUBCHECKS += [
     SubCheck("env2d.plaquette", run_env_plaq, s_env_plaq, examples=(40, 1000), shards=(1, 4),
              rule="compute_plaquette_environments(x_bsz, y_bsz in 1..2(3), first_contract, second_dense, modes), untruncated: one "
                   "key per plaquette position and every env | plaquette sites == whole; nt as RULE"),
+]
+
+SUBCHECKS += [
+    SubCheck("hotrg2d", run_hotrg2d, s_hotrg2d, examples=(60, 1500), shards=(1, 4),
+             rule="contract_hotrg[_] (sequence, canonize/gauge_power, equalize_norms, strip_exponent, lazy, max_separation, "
+                  "max_unfinished, final_contract) untruncated == einsum; coarse_grain_hotrg[_](x|y): size halves (odd row kept), "
+                  "one tensor per coarse site, value kept; binding cap: bonds across the coarse-grained direction <= cap; nt as RULE"),
+    SubCheck("ctmrg2d", run_ctmrg2d, s_ctmrg2d, examples=(50, 1200), shards=(1, 4),
+             rule="contract_ctmrg[_] (mode projector and others, sequence, canonize, lazy, equalize_norms, strip_exponent, "
+                  "max_separation, final_contract) untruncated == einsum; nt as RULE"),
+]
+
+for _g in B3D_GROUPS:
+    SUBCHECKS.append(SubCheck(
+        "b3d." + _g, run_b3d, s_b3d(_g), examples=(30, 600), shards=(1, 4),
+        rule=f"3D contract_boundary(mode in {B3D_GROUPS[_g]}) x any sub-sequence of the six directions x options (canonize, "
+             "canonize_interleave, compress_late, lazy, equalize_norms, strip_exponent, max_separation, max_unfinished, "
+             "final_contract, inplace) on 2x2x2..2x2x3 (thorough to 2x3x3), periodic where a side is >=3: untruncated == "
+             "einsum; binding cap on open lattices: bonds along every boundary plane <= cap; nt: D>=2"))
+SUBCHECKS += [
+    SubCheck("b3d.from_side", run_side3d, s_side3d, examples=(50, 1000), shards=(1, 4),
+             rule="3D contract_boundary_from[_] over the whole lattice from each of the 6 sides (network returned, value kept, "
+                  "binding cap obeyed), _compute_plane_envs (every env | rest == whole), contract_peps_sweep; nt: D>=2"),
+    SubCheck("rg3d", run_rg3d, s_rg3d, examples=(50, 1000), shards=(1, 4),
+             rule="3D contract_hotrg / coarse_grain_hotrg / contract_ctmrg / contract_simple_sweep untruncated == einsum, "
+                  "coarse graining halves the side and obeys a binding cap; nt: D>=2"),
 ]
